@@ -745,7 +745,8 @@ class _P(object):
     def coldef(self):
         name = self.ident()
         col = {"name": name, "type": None, "pk": False, "autoinc": False,
-               "references": None, "unique": False, "notnull": False}
+               "references": None, "unique": False, "notnull": False,
+               "collate": None}
         # optional type: an identifier (VARCHAR, INTEGER, BOOLEAN)
         if self.peek().kind == "ident":
             col["type"] = self.ident().upper()
@@ -785,6 +786,11 @@ class _P(object):
                 col["notnull"] = True
             elif self.eat_kw("DEFAULT"):
                 self.atom()
+            elif self.peek().kind in ("ident", "kw") and \
+                    self.peek().text.upper() == "COLLATE":
+                self.i += 1
+                col["collate"] = self.peek().text.upper()
+                self.i += 1
             else:
                 break
         return col
@@ -934,7 +940,8 @@ class Table(object):
     def signature(self):
         return (self.name,
                 tuple((c["name"], c["type"], c["pk"], c["autoinc"],
-                       c["references"], c["unique"]) for c in self.columns),
+                       c["references"], c["unique"], c.get("collate"))
+                      for c in self.columns),
                 tuple(sorted((n, tuple(v[0]), v[1])
                              for n, v in self.indexes.items())))
 
